@@ -11,6 +11,7 @@ THEOREMS = [
     "IsoVerif.Props.C01.C01_statement_false",
     "IsoVerif.Props.C01.C01_stage1_partial",
     "IsoVerif.Props.C01.C01_stage2_single_epoch_partial",
+    "IsoVerif.Props.C01.C01_incremental_partial",
 ]
 HARNESS = ("hx_pico", {"HX_ENGINE": "c01"})
 DRIVER = "drv_pico"
@@ -22,9 +23,8 @@ LEVEL_TEXT = ""
 LEVEL_NOTE = ""
 PARTIAL = [
     "C01_statement (all programs, all histories) is false of today's code only through CAUGHT PANICS: a call that panics leaves stale verified nodes behind (C01_witness_after_panic, open known finding). F1, F2 (/repo 79c6822) and F22 with its consequences — spurious panic, re-entrant stale read — (/repo 340414a) were repaired; the model follows the repaired code",
-    "C01_stage1_partial carries nesting depth 0 only (Flat: no body calls a memoised function) and histories none of whose calls panics when evaluated from scratch (CleanCalls); within that class every operation is covered — absent singletons, tracked fields, gc, retain",
-    "C01_stage2_single_epoch_partial carries ARBITRARY programs (nested calls, diamonds, ref functions) but only histories in which every source operation precedes every call (plus CleanCalls): execution = evaluation, in-epoch reuse, re-creation after gc",
-    "nested calls ACROSS source changes (verification of derived dependencies, backdating, time_updated) are not carried by a theorem yet: there C01 rests on the correspondence + oracle",
+    "C01_incremental_partial carries ALL histories (sources, singletons, tracked fields, nested calls, retain, gc, any capacity) for programs whose call graph is acyclic by a rank on function indices, under CleanStore: at every call the called node and every node stored at that moment evaluate from scratch without panicking, and the fuel exceeds every rank. Not carried: cyclic programs (pico panics), histories in which some stored node would panic if re-evaluated (e.g. a node holding a removed SourceId that is never reached again), caught panics",
+    "C01_stage1_partial (nesting depth 0) and C01_stage2_single_epoch_partial (any program, writes-then-reads histories) need only CleanCalls (the calls themselves do not panic), not CleanStore",
     "intern_ref appears only as ref functions (kind 3) whose value is the callee's value; intern_value and MemoRef parameters are not in the model",
 ]
 ASSUMPTIONS = [
@@ -169,7 +169,7 @@ def check_distribution(dist, cases):
     return None
 
 
-LEVEL_TEXT = ("Kernel-checked: witness theorems showing that the full statement C01_statement (all programs, all histories) is false of today's "
+LEVEL_TEXT = ("Kernel-checked: C01_incremental_partial — for every acyclic program and every history whose stored nodes evaluate without panicking, every memoised call returns the from-scratch value (invariant proof over the executable model: stamps, dependency verification, backdating, absent sources, gc); witness theorems showing that the full statement C01_statement (all programs, all histories) is false of today's "
               "code on one concrete history (a caught panic leaves stale verified nodes), "
               "each replayed on the real crate on every run, and the _partial theorems listed in THEOREMS. The model agrees with the real crate "
               "op by op (values, panic classes, run counters) on every generated history.")
